@@ -10,6 +10,7 @@ from props import bivlib as B
 GEN_TARGETS = ('Bivariate',)
 DRIVER_MAIN = 'Main/Biv.lean'
 DRIVER_TARGETS = ['CopVerif.Driver.Biv']
+ALWAYS_SEARCH = True
 RULE = ('family x theta (grid + random, |tau|<=0.8) x seed x n in {1..200}: the two np.random.uniform arrays drawn during '
         'the real sample() call are recorded (harness-side wrapper) and re-created from the model seed; the real output '
         'must equal the generated Base.sample applied to the recorded draws (Clayton within 1e-12, Frank/Gumbel with the '
@@ -132,17 +133,73 @@ def dkw(n, delta):
     return math.sqrt(math.log(2 / delta) / (2 * n))
 
 
+def deterministic_oracles(ctx, rng):
+    """cheap exact checks on the real code (run in the quick tier too)"""
+    checked = found = 0
+    # (i) Gumbel theta = 1 is the independence copula: sample = (c, v), the two draws themselves
+    c = B.make('gumbel', 1.0, 0.0)
+    seed = rng.randrange(2 ** 31)
+    c.set_random_state(seed)
+    try:
+        out = np.asarray(c.sample(50), dtype=float)
+        rs = np.random.RandomState(seed)
+        v, cc = rs.uniform(0, 1, 50), rs.uniform(0, 1, 50)
+        checked += 1
+        if not (np.array_equal(out[:, 1], v) and np.array_equal(out[:, 0], cc)):
+            found += 1
+            ctx.fail_input('gumbel.sample', {'theta': 1.0, 'tau': 0.0, 'seed': seed, 'n': 50},
+                           {'first_rows': out[:3].tolist(), 'expected_first_rows': np.column_stack((cc, v))[:3].tolist()},
+                           'at tau = 0 the two columns are the two independent uniform draws', 'gumbel.sample:theta=1-not-independent')
+    except Exception as e:  # noqa
+        found += 1
+        ctx.fail_input('gumbel.sample', {'theta': 1.0, 'seed': seed}, f'{vc.exc_kind(e)}: {e}', 'sample works at tau = 0',
+                       'gumbel.sample:raises')
+    # (ii) history: fit, sample, re-fit on other data, sample  ==  a fresh model fitted on the second data
+    for fam in B.FAMS:
+        taus = [0.25, 0.6] if fam != 'frank' else [-0.5, 0.45]
+        data = []
+        for i, tau in enumerate(taus):
+            rho = math.sin(math.pi * tau / 2)
+            z = np.random.RandomState(100 + i).multivariate_normal([0, 0], [[1, rho], [rho, 1]], size=150)
+            data.append(stats.norm.cdf(z))
+        obj = B.cls_of(fam)()
+        fresh = B.cls_of(fam)()
+        try:
+            obj.fit(data[0])
+            obj.set_random_state(5)
+            obj.sample(5)
+            obj.fit(data[1])
+            fresh.fit(data[1])
+            obj.set_random_state(9)
+            fresh.set_random_state(9)
+            a, b = np.asarray(obj.sample(20)), np.asarray(fresh.sample(20))
+        except Exception as e:  # noqa
+            found += 1
+            ctx.fail_input(f'{fam}.sample', {'history': 'fit, sample, refit, sample'}, f'{vc.exc_kind(e)}: {e}',
+                           'refit then sample works', f'{fam}.sample:refit-raises')
+            continue
+        checked += 1
+        if not (obj.theta == fresh.theta and obj.tau == fresh.tau and np.array_equal(a, b)):
+            found += 1
+            ctx.fail_input(f'{fam}.sample', {'history': 'fit(data0), sample, fit(data1), sample', 'taus': taus},
+                           {'refitted': {'tau': obj.tau, 'theta': obj.theta}, 'fresh': {'tau': fresh.tau, 'theta': fresh.theta}},
+                           'a re-fitted model samples like a fresh model fitted on the same data (stream = f(parameters, seed))',
+                           f'{fam}.sample:refit-differs-from-fresh')
+    return checked, found
+
+
 def search(ctx, deep):
     rng = ctx.rng('search')
     n = 20000 if deep else 4000
     delta = 1e-9
-    checked = found = 0
+    checked, found = deterministic_oracles(ctx, rng)
+    if not deep:
+        ctx.support = {'oracle_checks': checked, 'failures': found, 'deep': deep, 'statistical': False}
+        return
     cells = []
     for fam in B.FAMS:
-        for tau in ([0.2, 0.5, 0.8] if fam != 'frank' else [-0.8, -0.3, 0.3, 0.8]):
+        for tau in ([0.0, 0.2, 0.5, 0.8] if fam == 'gumbel' else [0.2, 0.5, 0.8] if fam != 'frank' else [-0.8, -0.3, 0.3, 0.8]):
             cells.append((fam, tau))
-    if not deep:
-        cells = rng.sample(cells, 4)
     for fam, tau in cells:
         th = {'clayton': 2 * tau / (1 - tau), 'gumbel': 1 / (1 - tau)}.get(fam)
         if th is None:
